@@ -1,0 +1,198 @@
+//! `Mutex` and atomics facades: a scheduling point, then the real primitive
+#![allow(missing_docs)]
+
+use std::ops::Deref;
+use std::ops::DerefMut;
+use std::sync::LockResult;
+use std::sync::PoisonError;
+use std::sync::TryLockError;
+use std::sync::TryLockResult;
+
+use super::PointKind;
+
+/// `std::sync::Mutex` with a scheduling point before acquisition; a lock held by a suspended
+/// task is waited for cooperatively (`try_lock` + `contended`), so the real lock state is the
+/// only lock state there is.
+#[derive(Debug, Default)]
+pub struct Mutex<T: ?Sized>(std::sync::Mutex<T>);
+
+pub struct MutexGuard<'a, T: ?Sized>(std::sync::MutexGuard<'a, T>);
+
+impl<T> Mutex<T> {
+    pub const fn new(t: T) -> Self {
+        Self(std::sync::Mutex::new(t))
+    }
+    pub fn into_inner(self) -> LockResult<T> {
+        self.0.into_inner()
+    }
+}
+
+impl<T: ?Sized> Mutex<T> {
+    pub fn lock(&self) -> LockResult<MutexGuard<'_, T>> {
+        let id = self as *const Self as *const () as usize;
+        super::point(PointKind::Lock, "mutex.lock", id);
+        loop {
+            match self.0.try_lock() {
+                Ok(g) => return Ok(MutexGuard(g)),
+                Err(TryLockError::Poisoned(p)) => {
+                    return Err(PoisonError::new(MutexGuard(p.into_inner())))
+                }
+                Err(TryLockError::WouldBlock) => super::contended(id),
+            }
+        }
+    }
+    pub fn try_lock(&self) -> TryLockResult<MutexGuard<'_, T>> {
+        let id = self as *const Self as *const () as usize;
+        super::point(PointKind::Lock, "mutex.try_lock", id);
+        match self.0.try_lock() {
+            Ok(g) => Ok(MutexGuard(g)),
+            Err(TryLockError::Poisoned(p)) => Err(TryLockError::Poisoned(PoisonError::new(
+                MutexGuard(p.into_inner()),
+            ))),
+            Err(TryLockError::WouldBlock) => Err(TryLockError::WouldBlock),
+        }
+    }
+    /// the real mutex, for observation without a scheduling point
+    pub fn raw(&self) -> &std::sync::Mutex<T> {
+        &self.0
+    }
+    pub fn get_mut(&mut self) -> LockResult<&mut T> {
+        self.0.get_mut()
+    }
+    pub fn is_poisoned(&self) -> bool {
+        self.0.is_poisoned()
+    }
+    pub fn clear_poison(&self) {
+        self.0.clear_poison()
+    }
+}
+
+impl<T: ?Sized> Deref for MutexGuard<'_, T> {
+    type Target = T;
+    fn deref(&self) -> &T {
+        &self.0
+    }
+}
+impl<T: ?Sized> DerefMut for MutexGuard<'_, T> {
+    fn deref_mut(&mut self) -> &mut T {
+        &mut self.0
+    }
+}
+impl<T: ?Sized + std::fmt::Debug> std::fmt::Debug for MutexGuard<'_, T> {
+    fn fmt(&self, f: &mut std::fmt::Formatter<'_>) -> std::fmt::Result {
+        self.0.fmt(f)
+    }
+}
+
+/// Atomics with a scheduling point before every operation
+pub mod atomic {
+    pub use std::sync::atomic::Ordering;
+
+    use super::super::PointKind;
+
+    macro_rules! hooked_atomic {
+        ($name:ident, $inner:ty, $prim:ty) => {
+            #[derive(Debug, Default)]
+            pub struct $name($inner);
+            impl $name {
+                pub const fn new(v: $prim) -> Self {
+                    Self(<$inner>::new(v))
+                }
+                #[inline]
+                fn pt(&self, l: &'static str) {
+                    super::super::point(PointKind::Atomic, l, self as *const Self as usize)
+                }
+                /// load without a scheduling point (observation only)
+                pub fn raw_load(&self) -> $prim {
+                    self.0.load(Ordering::SeqCst)
+                }
+                pub fn get_mut(&mut self) -> &mut $prim {
+                    self.0.get_mut()
+                }
+                pub fn into_inner(self) -> $prim {
+                    self.0.into_inner()
+                }
+                pub fn load(&self, o: Ordering) -> $prim {
+                    self.pt("load");
+                    self.0.load(o)
+                }
+                pub fn store(&self, v: $prim, o: Ordering) {
+                    self.pt("store");
+                    self.0.store(v, o)
+                }
+                pub fn swap(&self, v: $prim, o: Ordering) -> $prim {
+                    self.pt("swap");
+                    self.0.swap(v, o)
+                }
+                pub fn fetch_add(&self, v: $prim, o: Ordering) -> $prim {
+                    self.pt("fetch_add");
+                    self.0.fetch_add(v, o)
+                }
+                pub fn fetch_sub(&self, v: $prim, o: Ordering) -> $prim {
+                    self.pt("fetch_sub");
+                    self.0.fetch_sub(v, o)
+                }
+                pub fn fetch_and(&self, v: $prim, o: Ordering) -> $prim {
+                    self.pt("fetch_and");
+                    self.0.fetch_and(v, o)
+                }
+                pub fn fetch_nand(&self, v: $prim, o: Ordering) -> $prim {
+                    self.pt("fetch_nand");
+                    self.0.fetch_nand(v, o)
+                }
+                pub fn fetch_or(&self, v: $prim, o: Ordering) -> $prim {
+                    self.pt("fetch_or");
+                    self.0.fetch_or(v, o)
+                }
+                pub fn fetch_xor(&self, v: $prim, o: Ordering) -> $prim {
+                    self.pt("fetch_xor");
+                    self.0.fetch_xor(v, o)
+                }
+                pub fn fetch_max(&self, v: $prim, o: Ordering) -> $prim {
+                    self.pt("fetch_max");
+                    self.0.fetch_max(v, o)
+                }
+                pub fn fetch_min(&self, v: $prim, o: Ordering) -> $prim {
+                    self.pt("fetch_min");
+                    self.0.fetch_min(v, o)
+                }
+                pub fn compare_exchange(
+                    &self,
+                    c: $prim,
+                    n: $prim,
+                    s: Ordering,
+                    f: Ordering,
+                ) -> Result<$prim, $prim> {
+                    self.pt("cas");
+                    self.0.compare_exchange(c, n, s, f)
+                }
+                /// May fail spuriously when the engine's `choose("cas_weak", 2)` answers 1
+                pub fn compare_exchange_weak(
+                    &self,
+                    c: $prim,
+                    n: $prim,
+                    s: Ordering,
+                    f: Ordering,
+                ) -> Result<$prim, $prim> {
+                    self.pt("cas_weak");
+                    if super::super::choose("cas_weak", 2) == 1 {
+                        return Err(self.0.load(f));
+                    }
+                    self.0.compare_exchange(c, n, s, f)
+                }
+                pub fn fetch_update<F: FnMut($prim) -> Option<$prim>>(
+                    &self,
+                    s: Ordering,
+                    f: Ordering,
+                    g: F,
+                ) -> Result<$prim, $prim> {
+                    self.pt("fetch_update");
+                    self.0.fetch_update(s, f, g)
+                }
+            }
+        };
+    }
+    hooked_atomic!(AtomicU8, std::sync::atomic::AtomicU8, u8);
+    hooked_atomic!(AtomicUsize, std::sync::atomic::AtomicUsize, usize);
+    hooked_atomic!(AtomicU64, std::sync::atomic::AtomicU64, u64);
+}
